@@ -763,6 +763,8 @@ def run_c12(ctx):
         scs.append({'sid': 'pes-%s' % part, 'kind': 'pes', 'part': part, 'seed': sd, 'n': n})
     for i in range(8 if quick else 64):
         scs.append({'sid': 'pes-random-%d' % i, 'kind': 'pes', 'part': 'random', 'seed': sd * 613 + i, 'n': 200 if quick else 1500})
+    for i in range(6 if quick else 60):
+        scs.append({'sid': 'pes-stream-%d' % i, 'kind': 'pes', 'part': 'stream', 'seed': sd * 419 + i, 'n': 6 if quick else 20})
     return pipeline(
         ctx, 'Mon_C12', 'pes', scs,
         rule='header values: all 256 stream ids; all 2^8 combinations of the second flags byte x extension-flag subsets; the 64 combinations of the '
@@ -771,7 +773,7 @@ def run_c12(ctx):
              'PES_packet_length 0 / exact / shorter / longer and the 65535 limit; Duration() for every clock value. Writer bytes = '
              'PESEncode!Encode(value) (TLC); parser on reference bytes (writer-confirmed or twin-built and TLC-re-derived) = value',
         assumptions=['HasCRC / pack header are not requested from the writer (documented unsupported); they are parsed from twin-built reference bytes',
-                     'Duration(): either floor(a)+floor(b) or floor(a+b) is accepted', 'pack_header_field is outside the statement'])
+                     'Duration() / Time(): floor of the sum in nanoseconds', 'pack_header_field is outside the statement'])
 
 
 DESC_KINDS = ['ac3', 'avc', 'component', 'content', 'dsa', 'eac3', 'extevent', 'extension', 'extensionsa', 'iso639', 'lto', 'maxbitrate', 'netname',
